@@ -1,21 +1,21 @@
 CONSTANTS
-  NH = 3
-  MaxBufs = 4
+  NH = 2
+  MaxBufs = 3
   Statics <- cStatics
-  OpKinds <- cOpsCore
-  StrArgs <- cStrS3
+  OpKinds <- cOpsDecode
+  StrArgs <- cStrS2
   CharArgs <- cChars
   Caps = {0, 30}
   IdxMode = "few"
   RetainPats <- cRetain
-  ItemSeqs <- cItems
-  Hints = {0}
-  RawArgs <- cRawNone
-  U16Args <- cU16None
-  FailMode = 0
+  ItemSeqs <- cItems2
+  Hints = {0, 20}
+  RawArgs <- cRaw
+  U16Args <- cU16
+  FailMode = 1
   PanicMode = 0
   Seeds <- cSeedsEmpty
-  MaxSteps = 4
+  MaxSteps = 2
 SPECIFICATION Spec
 VIEW View
 INVARIANTS ModelTypeOK NoUninitRead OwnInv
